@@ -16,7 +16,9 @@ CHECKS = {
    note="Trusted: Coq kernel, hand-written model of sort.rs/compare_items (usize = 64 bit), slice::sort_by is a correct stable sort given a total preorder. Ord for UseTree (imports.rs) is not modelled: import ordering is covered only by the end-to-end permutation oracle. Group boundaries (blank lines, macro_use, skip) not covered by this check. Known finding class: identifiers with a digit run >= 2^64."),
  "C17": dict(cat="proof", ref="DESIGN.md §5 C17",
    text="Coq theorems (28) over a model of Range and FileLines: queries answer as the UNION of the given ranges for every range list incl. empty ranges, normal form sorted/disjoint/non-adjacent, empty selection selects nothing; model tied to the code by a seeded correspondence run through hook config::file_lines::verif; union semantics also evaluated directly on the implementation's answers.",
-   note="Partial: the range algebra and queries are proved; the clauses about emitted bytes (unselected items byte-identical, selected code formatted as without restriction) are not covered by this check yet. Trusted: Coq kernel, hand-written model, Vec::sort correctness, path canonicalisation abstracted."),
+   note="Partial: the range algebra and queries are proved; the clauses about emitted bytes (unselected items byte-identical, selected code formatted as without restriction) are not covered by this check yet. Trusted: Coq kernel, hand-written model, Vec::sort correctness, path canonicalisation abstracted."), "C20": dict(cat="proof", ref="DESIGN.md §5 C20",
+   text="Coq theorems over the backup protocol as a list of file-system operations (non-atomic write, atomic rename): after every prefix of the operations, with the next one interrupted at any byte or failing, the original is complete in FILE or FILE.bk and FILE holds the original or the formatted text, never a partial one; success post-condition; unchanged files get no operation; other paths untouched. Tied to the code by real `rustfmt --backup` processes aborted / faulted at every named crash point (cfg-guarded hook) for every position in a 3-file run, directory contents compared with the model state, and by strace comparing the real order of openat/rename with the model's operation list.",
+   note="Trusted: Coq kernel; POSIX assumptions (rename atomic, write not) stated in the model; the mid-write crash is modelled, not provoked; with_extension yields three distinct names (hypothesis of the theorems: two inputs x.rs and x.foo would share x.tmp/x.bk, a pre-existing x.bk is overwritten — outside the property's text)."),
 }
 ALL = ["C%02d" % i for i in range(1, 21)]
 NA_REASON = "check not built yet (construction in progress; DESIGN.md §11 gives the order)"
